@@ -1355,6 +1355,8 @@ def real_kind(meta, i):
         return "KLrto"            # zero noise: conditional mean from the target's Hessian; scripted noise: stacked least-squares draw (real_lsspec)
     if a == "UGLA":
         return "KLrto"            # stacked least-squares draw with the Laplace weights at the current point
+    if a == "RegularizedLinearRTO":
+        return "KLrto"            # stacked least-squares draw constrained to x >= 0 (Model/C09_Nnls.v)
     if a == "NUTS":
         return "KNuts"
     return "KOpq" if a in ("MH", "CWMH", "MALA", "ULA", "PCN") else "KRec"
@@ -1536,7 +1538,8 @@ def real_ls_block(meta, i):
     a = meta["assign"][i]
     if i in meta.get("opaque", []):
         return False
-    return (a == "LinearRTO" and meta["model"] == "hier" and not meta.get("zero_noise")) or (a == "UGLA" and meta["model"] == "lmrf")
+    return ((a == "LinearRTO" and meta["model"] == "hier" and not meta.get("zero_noise")) or (a == "UGLA" and meta["model"] == "lmrf")
+            or (a == "RegularizedLinearRTO" and meta["model"] == "reg"))
 
 
 def real_lsspec(meta, i):
@@ -1554,10 +1557,11 @@ def real_lsspec(meta, i):
     if meta["model"] == "lmrf":
         Dcols = [_diffs([float(j == c) for c in range(n)]) for j in range(n)]
         pri = "(mkGF (inl %s) %s)" % (cnat(ix["d"]), clist([row(0, {ix["x"]: [Fraction(Dcols[j][r]) for j in range(n)]}) for r in range(n + 1)]))
-        return "(Some [(%s, None); (%s, Some %s)])" % (lik, pri, cq(UGLA_BETA))
+        return "(Some ([(%s, None); (%s, Some %s)], false))" % (lik, pri, cq(UGLA_BETA))
     unit = lambda j: [Fraction(int(j == c)) for c in range(n)]
     pri = "(mkGF (inl %s) %s)" % (cnat(ix["d"]), clist([row(0, {ix["x"]: unit(j)}) for j in range(n)]))
-    return "(Some [(%s, None); (%s, None)])" % (lik, pri)
+    # RegularizedGaussian with the non-negativity constraint: the same rows, the solve constrained to x >= 0
+    return "(Some ([(%s, None); (%s, None)], %s))" % (lik, pri, cbool(meta["model"] == "reg"))
 
 
 def real_ls_item(meta, i, ev, out):
